@@ -190,7 +190,7 @@ class LDAPExtendedRequestStartTLS(LDAPMessageParsableBase):
 
 @attr.s
 class LDAPExtendedResponseStartTLS(LDAPMessageParsableBase):
-    result_code = attr.ib(validator=attr.validators.in_(LDAPResultCode))
+    result_code = attr.ib(converter=LDAPResultCode, validator=attr.validators.in_(LDAPResultCode))
 
     @classmethod
     def _parse(cls, parsable):
